@@ -265,6 +265,26 @@ pub fn family(name: &str) -> Family {
             f.probes = &["pke"];
             f
         }
+        "big" => {
+            // more than 128 attributes (two-byte identifiers in rights), ~400 rights: used by the
+            // long-path runs only (a BFS over it would be too slow)
+            let mut init: Vec<String> = vec!["add-dim W anarchy".into()];
+            for i in 0..130 {
+                init.push(format!("add W::w{i} {}", if i % 64 == 0 { "hybrid" } else { "classic" }));
+            }
+            init.extend(["add-dim Q hierarchy", "add Q::m classic", "add Q::z hybrid after m", "update", "keygen W::w129 && Q::z", "keygen W::w0", "keygen *"].iter().map(|s| s.to_string()));
+            Family {
+                name: "big",
+                init: ops(&init.iter().map(String::as_str).collect::<Vec<_>>()),
+                alphabet: vec![],
+                enc_menu: vec!["W::w129", "W::w128 && Q::m", "W::w0", "W::w127 || W::w128 || W::w129", "Q::z", "W::w130", "*"],
+                tags: Tags { open: "C03.a", deny: "C03.a" },
+                rt_bound: 4,
+                max_usks: 4,
+                rt_encs: false,
+                probes: &[],
+            }
+        }
         "disrot" => {
             // rotation meets deactivation: the initial world already holds a re-keyed right whose
             // key kept the old secret, so that disable / delete + update + prune + refresh
@@ -702,6 +722,67 @@ pub fn stats_json(fam: &Family, st: &ExploreStats) -> serde_json::Value {
         "wire_decoder_disagreements": st.decoder_disagreements,
         "real_api_calls": st.counts,
     })
+}
+
+pub fn big_path() -> Vec<Op> {
+    ops(&[
+        "rekey W::w129",
+        "refresh 0 keep",
+        "rekey *",
+        "refresh 0 keep",
+        "refresh 2 drop",
+        "prune W::w129",
+        "refresh 0 keep",
+        "add W::w130 classic",
+        "rekey W::w0",
+        "update",
+        "keygen W::w130",
+        "rt-msk",
+        "disable W::w128",
+        "update",
+        "rekey W::w128",
+        "rt-usk 0",
+        "refresh 0 drop",
+        "del W::w129",
+        "update",
+        "refresh 0 keep",
+        "refresh 2 keep",
+        "rename W::w127 w127bis",
+        "del-dim Q",
+        "update",
+        "refresh 2 drop",
+        "rekey *",
+    ])
+}
+
+/// One long deterministic history, every step fully checked (for bounds that a BFS cannot
+/// reach: many revisions of one right, many users).
+pub fn run_path(run: &mut Run, fam_name: &str, path: &[Op], owned: &[&str]) -> (u64, BTreeMap<&'static str, u64>) {
+    let fam = family(fam_name);
+    let mut w = World::new(&fam.enc_menu, fam.tags.clone());
+    w.max_usks = fam.max_usks.max(4);
+    w.pke_probes = fam.wants("pke");
+    for op in &fam.init {
+        w.apply(op, Mode::Replay);
+    }
+    let mut steps = 0u64;
+    for (i, op) in path.iter().enumerate() {
+        if !w.enabled(op) {
+            continue;
+        }
+        w.apply(op, Mode::Check);
+        steps += 1;
+        let fails = std::mem::take(&mut w.failures);
+        if let Some(f) = fails.iter().find(|f| owned.iter().any(|p| f.clause.starts_with(p)) && classify(f).is_none()) {
+            let ops: Vec<String> = path[..=i].iter().map(|o| o.to_string()).collect();
+            run.report(None, &f.clause, &format!("long path, step {} ({}): {}", i + 1, op, f.msg), json!({"engine": "histex", "family": fam.name, "config": crate::wire::NAME, "ops": ops}));
+            break;
+        }
+        if fails.iter().any(|f| !BENIGN.iter().any(|b| f.clause.starts_with(b)) && classify(f).is_none()) {
+            break; // diverged on a clause owned by another property
+        }
+    }
+    (steps, w.counts.clone())
 }
 
 /// Replays one recorded history without the explorer; returns the failures of its last step.
